@@ -19,7 +19,7 @@ ASSUMPTIONS = [
     "'every change is rejected' holds up to a 128-bit tag collision: what is proved is 'accept iff supplied tag == specified tag of the supplied inputs, else -1 and zeroed plaintext'",
     "plaintext wipe loop of ascon_aead_check_tag: bounded (writes through a moving pointer)",
     "meta-step: generalisation of the decrypt step proofs to every length",
-    "SIV and ISAP decryption: see C06; masked: C10; C++: not covered",
+    "SIV and ISAP decryption: see C06; masked one-shot decrypt: constant lengths around the block boundaries (see C10); C++: not covered",
 ]
 
 
@@ -32,4 +32,5 @@ def groups(tier):
     gs += common.aead_inc_groups("c02", ["C02"], ("start", "decrypt_block", "decrypt_finalize"))
     gs.append(Group("c02.lemma.inverse_step", ["C02"], "harness/h_lemma_inverse.c", "h_lemma_inverse", [], cfg="C64",
                     defs=["VERIF_ABSTRACT_P"], unwind=2, expect_classes=["assertion"]))
+    gs += common.masked_aead_groups("c02", ["C02"], tier, ops=("decrypt",))
     return gs
